@@ -95,6 +95,10 @@ RingHashC(e) == LET N == e.n IN
      <<"same_cell_dxdy", e.same = 1>>,
      <<"offsets", e.dx \in (-TolOff)..(1000000 + TolOff) /\ e.dy \in (-TolOff)..(1000000 + TolOff)>>,
      <<"sph_coo_inverts", e.back = -1 \/ (e.back >= 0 /\ e.back <= TolPos)>> >>
+(* 200 positions of a polar cap on (or within 2 ulp of) a meridian k pi/2: extreme offsets and worst inversion error *)
+RingScanC(e) == << <<"panic", e.p = 0>>, <<"same_cell_dxdy", e.diff = 0>>,
+                   <<"offsets", e.dxmin >= -TolOff /\ e.dymin >= -TolOff /\ e.dxmax <= 1000000 + TolOff /\ e.dymax <= 1000000 + TolOff>>,
+                   <<"sph_coo_inverts", e.back <= TolPos>> >>
 RingCenterC(e) == LET N == e.n
                       okf == Len(e.cf) = 3 /\ FaceKind(e.cf) = "cell"
                       cl == CellOfFace(e.cf)
@@ -219,6 +223,7 @@ Clauses(e) == CASE e.ev = "hash" -> HashC(e)
                 [] e.ev = "ring_nested_centre" -> RingNestedCentreC(e)
                 [] e.ev = "ring_hash" -> RingHashC(e)
                 [] e.ev = "ring_center" -> RingCenterC(e)
+                [] e.ev = "ring_scan" -> RingScanC(e)
                 [] e.ev = "ring_bad" -> RingBadC(e)
                 [] e.ev = "ring_meta" -> RingMetaC(e)
                 [] e.ev = "cellgeo" -> CellGeoC(e)
